@@ -11,7 +11,7 @@ git -C /repo worktree remove --force "$wt" 2>/dev/null; rm -rf "$wt"
 git -C /repo worktree add -q --detach "$wt" HEAD || exit 2
 cleanup(){ git -C /repo worktree remove --force "$wt" 2>/dev/null; rm -rf "$wt" /tmp/seedtmp-$id; }
 trap cleanup EXIT
-run_demo(){ ( cd /tmp && timeout 900 bash "$dir/demo.sh" "$wt" >"/tmp/seedverify-$id.$1.log" 2>&1 ); echo $?; }
+run_demo(){ cwd=$(mktemp -d /tmp/seedcwd.XXXXXX); ( cd "$cwd" && timeout 900 bash "$dir/demo.sh" "$wt" >"/tmp/seedverify-$id.$1.log" 2>&1 ); rc=$?; rm -rf "$cwd"; echo $rc; }
 demo_unchanged=$(run_demo unchanged)
 applies=yes
 ( cd "$wt" && git apply "$dir/patch.diff" ) || applies=no
